@@ -143,6 +143,23 @@ def position_docs(tier):
             for el in ("*no*", "`no`", "[no](/u)", "<b>no</b>"):
                 docs.append(("", "%syes%syes%s%s%syes done\n" % (ctxp, seps[0], seps[1], el, seps[2])))
                 docs.append(("", "%sFirst line.\n%sSecond%sline with %s in line%sit.\n" % (ctxp, ind, seps[0], el, seps[1])))
+    # TAB + a code span that wraps a line + more content; block quotes nested in list items / indented quotes whose paragraph wraps
+    # and has inline elements on later lines; documents of 10+ lines with two pragma lines (line numbers of different widths)
+    for t in ("a\t`b\nc` d\n", "a `b\nc`\td\n", "a\t`b\nc`\nd\n", "some\ttext `code span\nwrapped` and more text\n", "- a\t`b\n  c` d\n", "> a\t`b\n> c` d\n",
+              "x\t*e\nf* g `h\ni` j\n"):
+        docs.append(("", t))
+    for lead in ("1. Install the package.\n\n   ", "- item\n\n  ", " ", "  ", "   ", "> - q\n>   "):
+        ind = lead.split("\n")[-1]
+        q = ind + "> "
+        docs.append(("", "%s> **Note:** this needs Python 3.8 or\n%slater, see [the docs](https://example.com/docs)\n%sand use ` pip ` or <b>pipenv</b>.\n" % (lead, q, q)))
+        docs.append(("", "%s> first *line*\n%s`code` and ![i](/j) then\n%s[l](/u \"t\") end\n" % (lead, q, q)))
+    body = "".join("line %d of the text\n\n" % k if k % 2 else "#  Heading %d\n\n" % k for k in range(1, 8))
+    blines = body.split("\n")
+    for a_, b_ in ((3, 12), (9, 10), (2, 11), (10, 13)):
+        ls = list(blines)
+        ls.insert(b_ - 1, "<!-- pyml disable-next-line no-multiple-space-atx-->")
+        ls.insert(a_ - 1, "<!--- pyml disable-num-lines 2 md019-->")
+        docs.append(("", "\n".join(ls)))
     return docs
 
 
